@@ -26,11 +26,13 @@ Items == <<
   I("{x,}", "fld"), I("{x:%Y-%m}", "fld"), I("{x:}", "fld"), I("{x\n}", "fldml"), I("{x:a\nb}", "fldml"),     \* 31-35
   I("{$HOME}", "fld"), I("{x:{w}{p}}", "fld"), I("{x=!r:>5}", "fld"), I("{x.y[0](z)}", "fld"), I("{x if c else d}", "fld"), \* 36-40
   I("{a:=5}", "fld"), I("{x!r:{{}}}", "fld"), I("{'q'}", "fldsq"), I("{x:{'>'}{w}}", "fldsq"), I("{*x,}", "fld"),   \* 41-45
-  I("\n", "nl"), I("{x : >4}", "fld"), I("{x!r }", "fld"), I("{ x }", "fld"), I("{x:{y:{z}}}", "fld")         \* 46-50
+  I("\n", "nl"), I("{x : >4}", "fld"), I("{x!r }", "fld"), I("{ x }", "fld"), I("{x:{y:{z}}}", "fld"),        \* 46-50
+  I("{x!sr}", "fld"), I("{x!ra}", "fld"), I("{x!z}", "fld"), I("{x!}", "fld"), I("{x!r!s}", "fld"),            \* 51-55 invalid conversions
+  I("{x", "fld"), I("{}", "fld"), I("{x!r:>{w}", "fld"), I("}", "lit"), I("{x:{w}", "fld")                    \* 56-60 malformed
 >>
 Prefixes == <<"f", "F", "rf", "fr", "Rf", "fR", "RF", "Fr">>
 Quotes == <<"'", "\"", "'''", "\"\"\"">>
-Befores == <<"", "'s' ", "f'{q}' ", "x + ", "'s'\n  ">>
+Befores == <<"", "'s' ", "f'{q}' ", "x + ", "'s'\n  ", "u'a' ", "u'a' 'b' ", "\"\"\"m\nn\"\"\" ">>
 Afters == <<"", " 't'", " f'{r}'", "  # c", "\n 'u'">>
 
 Allowed(q, it) ==
